@@ -91,10 +91,10 @@ def scripted_mangle(ctx, seed, goal, hop, how, dup):
         w.close()
 
 
-def scripted_late_answer(ctx, seed, goal, hop):
+def scripted_late_answer(ctx, seed, goal, hop, topology="line4", after=False):
     """the answer for hop `hop` is held back until the originator's retry time-out has fired (it retries with another
     candidate or gives up), then it arrives: an answer from an earlier attempt must not be accepted"""
-    w = R.world("line4", seed)
+    w = R.world(topology, seed)
     try:
         w.create_circuit("o", goal)
         held = None
@@ -112,8 +112,10 @@ def scripted_late_answer(ctx, seed, goal, hop):
                 if held is not None:
                     continue
             retried = any(e["a"] == "RetryTimeout" for e in w.events)
-            if held is not None and retried and any(x.seq == held.seq for x in w.net.inflight):
-                w.deliver(held.seq)             # the late answer overtakes whatever the retry has sent
+            if held is not None and retried and any(x.seq == held.seq for x in w.net.inflight) and not (after and pending):
+                # the late answer overtakes whatever the retry has sent / (after) arrives when the retry has gone through,
+                # at the same instant (the joined node's own 10 s cache of the abandoned attempt is still there)
+                w.deliver(held.seq)
                 held = type("gone", (), {"seq": -1})()
                 continue
             if pending:
@@ -121,7 +123,8 @@ def scripted_late_answer(ctx, seed, goal, hop):
                 continue
             if w.now_ms() > 90000 or w.fire_next_timer() is None:
                 break
-        tr = {"events": w.events, "topology": "line4", "seed": seed, "profile": "late-answer g%d h%d" % (goal, hop)}
+        tr = {"events": w.events, "topology": topology, "seed": seed,
+              "profile": "late-answer g%d h%d%s" % (goal, hop, " after" if after else "")}
         K.check_escapes(ctx, w, tr, "late-answer")
         return tr, w.header()
     finally:
@@ -142,9 +145,13 @@ def run(tier, seed, replay=None):
                         "encrypted extended answers cannot be rewritten by a network attacker (only the plaintext created leg)",
                         "a malicious relay ON the path is represented by manipulations of the created it forwards"]
     install_probe(ctx)
-    bg = K.Background(["Onion_c08_a.cfg", "Onion_c08_b.cfg", "Onion_c08_t.cfg", "Onion_c08_a3.cfg"],
+    bg = K.Background(["Onion_c08_a.cfg", "Onion_c08_b.cfg", "Onion_c08_t.cfg", "Onion_c08_a3.cfg", "Onion_c08_late_q.cfg"] +
+                      (["Onion_c08_late.cfg"] if tier == "thorough" else []),
                       [("Onion_c08_noident.cfg", "AnswerMustMatch",
-                        "spec without the identifier comparison accepts a stale answer (AnswerMustMatch violated)")])
+                        "spec without the identifier comparison accepts a stale answer (AnswerMustMatch violated)"),
+                       ("Onion_c08_norelayonce.cfg", "PathAgreement",
+                        "spec in which a created may re-point a circuit that already is a relay (the code before the fix) lets a "
+                        "late answer of an abandoned attempt change an established hop (PathAgreement violated)")])
     base = seed * 1000
     n = 4 if tier == "quick" else 16
     ok, traces, hdr = K.random_family(ctx, PID, "line4", "handshake", range(base, base + n), 220 if tier == "quick" else 500,
@@ -168,6 +175,13 @@ def run(tier, seed, replay=None):
         tr, hdr3 = scripted_late_answer(ctx, seed * 100 + 50 + i, goal, hop)
         late.append(tr)
     K.validate_family(ctx, PID, late, "line4", hdr3, "late-answer", NONTRIVIAL | {"Deliver"})
+    # with a second exit the retry succeeds: the abandoned attempt's answer meets an established hop
+    late2 = []
+    for i, (goal, hop, after) in enumerate([(2, 2, True), (3, 3, True), (2, 2, False), (3, 2, True)] if tier == "quick" else
+                                           [(g, h, a) for g in (2, 3) for h in range(2, g + 1) for a in (True, False)] * 3):
+        tr, hdr4 = scripted_late_answer(ctx, seed * 100 + 80 + i, goal, hop, "two_exits", after)
+        late2.append(tr)
+    K.validate_family(ctx, PID, late2, "two_exits", hdr4, "late-answer-retried", NONTRIVIAL | {"Deliver"})
     ctx.note("scripted", {"runs": len(scr), "manipulations": sum(1 for t in scr for e in t["events"] if e["a"] == "MangleAnswer")})
     bg.collect(ctx)
     return ctx.finish()
